@@ -2,7 +2,7 @@
 // with the protocol of THandler / CoreSMTSolver (one backtrack point per literal, literals grouped in decision levels,
 // backtracking to level boundaries only, at least one level after every conflict, deductions drained after a successful check
 // and asserted back), libz3 as the oracle for the currently asserted literal set.
-// Modes: h_theory lra | euf | idl | rdl | replay <file>
+// Modes: h_theory lra | euf | idl | rdl | ax | replay <file>
 // A case is a vector of entropy words consumed by a deterministic interpreter (so rapidcheck shrinks the history).
 #include "common.h"
 #include <logics/ArithLogic.h>
@@ -10,6 +10,7 @@
 #include <options/SMTConfig.h>
 #include <tsolvers/lasolver/LASolver.h>
 #include <tsolvers/egraph/Egraph.h>
+#include <tsolvers/arraysolver/ArraySolver.h>
 #include <tsolvers/stpsolver/IDLSolver.h>
 #include <tsolvers/stpsolver/RDLSolver.h>
 #include <rapidcheck.h>
@@ -45,6 +46,8 @@ static void z3init() {
     d << "(declare-sort U 0)";
     for (int i = 0; i < 5; ++i) d << "(declare-fun x" << i << " () Real)(declare-fun i" << i << " () Int)(declare-fun u" << i << " () U)";
     d << "(declare-fun f (U) U)(declare-fun g (U U) U)(declare-fun p (U) Bool)(declare-fun q (U U) Bool)";
+    d << "(declare-sort I 0)(declare-sort E 0)";
+    for (int i = 0; i < 5; ++i) d << "(declare-fun a" << i << " () (Array I E))(declare-fun j" << i << " () I)(declare-fun e" << i << " () E)";
     Z3_eval_smtlib2_string(z3, d.str().c_str());
 }
 // "sat" | "unsat" | other
@@ -61,7 +64,31 @@ struct World {
     std::unique_ptr<Logic> logicHolder;
     Logic * logic = nullptr;
     SMTConfig config;
-    std::unique_ptr<TSolver> solver;
+    std::unique_ptr<TSolver> solver;           // first (or only) solver
+    std::unique_ptr<TSolver> second;           // arrays: the array solver working on top of the Egraph
+    std::vector<TSolver *> sched;              // the solver schedule, handled as TSolverHandler does
+    bool judgeSat = true;                      // arrays: consistency verdicts are not judged (extensionality witnesses are added by the front end, not by the solver)
+    std::vector<std::vector<std::pair<int, bool>>> clauses;   // split / lemma clauses handed out by the solvers
+    // -- TSolverHandler semantics over the schedule
+    void declareAtom(PTRef tr) { for (auto * s : sched) if (s->isValid(tr)) s->declareAtom(tr); }
+    void informNewSplit(PTRef tr) { for (auto * s : sched) if (s->isValid(tr)) s->informNewSplit(tr); }
+    bool assertLit(PtAsgn a) {
+        bool res = true;
+        for (auto * s : sched) { s->pushBacktrackPoint(); if (!s->isInformed(a.tr)) continue; res &= s->assertLit(a); }
+        return res;
+    }
+    void pop(unsigned n) { for (auto * s : sched) s->popBacktrackPoints(n); }
+    TRes check(bool complete) {
+        TRes fin = TRes::SAT;
+        for (auto * s : sched) { TRes r = s->check(complete); if (r == TRes::UNSAT) return r; if (r == TRes::UNKNOWN) fin = r; }
+        return fin;
+    }
+    void getConflict(vec<PtAsgn> & e) { for (auto * s : sched) if (s->hasExplanation()) { s->getConflict(e); return; } }
+    PtAsgn_reason getDeduction() {
+        for (auto * s : sched) { PtAsgn_reason d = s->getDeduction(); if (d.tr != PTRef_Undef) return d; }
+        return PtAsgn_reason_Undef;
+    }
+    bool hasNewSplits() { for (auto * s : sched) if (s->hasNewSplits()) return true; return false; }
     std::vector<PTRef> atoms;
     std::vector<bool> positiveOnly;
     bool preferTrue = false;  // 'tight' arithmetic worlds: atoms are asserted positively four times out of five
@@ -89,6 +116,7 @@ static void buildArith(World & w, Src & s, std::string const & mode) {
     if (mode == "lra") w.solver.reset(new LASolver(w.config, *al));
     else if (ints) w.solver.reset(new IDLSolver(w.config, *al));
     else w.solver.reset(new RDLSolver(w.config, *al));
+    w.sched = {w.solver.get()};
     int nv = dl ? 3 + s.below(3) : 2 + s.below(3);
     std::vector<PTRef> vars;
     for (int i = 0; i < nv; ++i) {
@@ -155,6 +183,7 @@ static void buildEuf(World & w, Src & s) {
     w.logicHolder.reset(L);
     w.logic = L;
     w.solver.reset(new Egraph(w.config, *L));
+    w.sched = {w.solver.get()};
     SRef U = L->declareUninterpretedSort("U");
     std::vector<PTRef> consts;
     int nc = 3 + s.below(3);
@@ -194,6 +223,47 @@ static void buildEuf(World & w, Src & s) {
     }
 }
 
+static void buildAx(World & w, Src & s) {
+    auto * L = new Logic(Logic_t::QF_AX);
+    w.logicHolder.reset(L);
+    w.logic = L;
+    auto * eg = new Egraph(w.config, *L);
+    w.solver.reset(eg);
+    w.second.reset(new ArraySolver(*L, *eg, w.config));
+    w.sched = {w.solver.get(), w.second.get()};
+    w.judgeSat = false;
+    SRef I = L->declareUninterpretedSort("I");
+    SRef E = L->declareUninterpretedSort("E");
+    SRef A = L->getArraySort(I, E);
+    std::vector<PTRef> arrs, idxs, elems;
+    int na = 2 + s.below(2), ni = 2 + s.below(3), ne = 2 + s.below(2);
+    for (int i = 0; i < na; ++i) arrs.push_back(L->mkVar(A, ("a" + std::to_string(i)).c_str()));
+    for (int i = 0; i < ni; ++i) idxs.push_back(L->mkVar(I, ("j" + std::to_string(i)).c_str()));
+    for (int i = 0; i < ne; ++i) elems.push_back(L->mkVar(E, ("e" + std::to_string(i)).c_str()));
+    auto idx = [&]() { return idxs[s.below(ni)]; };
+    std::function<PTRef(int)> arr = [&](int d) -> PTRef {
+        if (d <= 0 || s.below(2) == 0) return arrs[s.below(na)];
+        PTRef base = arr(d - 1);
+        PTRef i = idx();
+        PTRef v = s.below(3) == 0 ? L->mkSelect({arrs[s.below(na)], idx()}) : elems[s.below(ne)];
+        return L->mkStore({base, i, v});
+    };
+    auto elem = [&]() -> PTRef {
+        if (s.below(3) == 0) return elems[s.below(ne)];
+        PTRef a = arr(2);
+        return L->mkSelect({a, idx()});
+    };
+    int n = 5 + s.below(8);
+    for (int a = 0; a < n; ++a) {
+        switch (s.below(6)) {
+            case 0: case 1: { PTRef x = elem(); addAtom(w, L->mkEq(x, elem())); break; }       // reads (over stores) compared
+            case 2: { PTRef x = idx(); addAtom(w, L->mkEq(x, idx())); break; }                 // index equalities
+            case 3: case 4: { PTRef x = arr(2); addAtom(w, L->mkEq(x, arr(1))); break; }       // array equalities
+            default: { PTRef x = elems[s.below(ne)]; addAtom(w, L->mkEq(x, elems[s.below(ne)])); break; }
+        }
+    }
+}
+
 struct Run {
     World & w;
     std::vector<std::pair<int, bool>> stack;  // asserted literals in order (atom index, polarity)
@@ -221,13 +291,49 @@ struct Run {
     }
     void declare(int i) {
         if (declared[i]) return;
-        w.solver->declareAtom(w.atoms[i]);
+        w.declareAtom(w.atoms[i]);
         declared[i] = true;
         say("declare " + w.logic->termToSMT2String(w.atoms[i]));
     }
     int findAtom(PTRef t) const {
         for (size_t i = 0; i < w.atoms.size(); ++i) if (w.atoms[i] == t) return (int)i;
         return -1;
+    }
+    // a lemma / split clause handed out by a solver: its atoms become known (declared, informNewSplit) and assertable
+    void addClause(PTRef c) {
+        Logic & L = *w.logic;
+        std::vector<PTRef> lits;
+        if (L.isOr(c)) { Pterm const & t = L.getPterm(c); for (PTRef x : t) lits.push_back(x); } else lits.push_back(c);
+        std::vector<std::pair<int, bool>> cl;
+        for (PTRef l : lits) {
+            bool pol = !L.isNot(l);
+            PTRef atom = pol ? l : L.getPterm(l)[0];
+            int i = findAtom(atom);
+            if (i < 0) {
+                w.atoms.push_back(atom); w.positiveOnly.push_back(false); w.group.push_back(-1);
+                value.push_back(0); declared.push_back(false);
+                i = (int)w.atoms.size() - 1;
+            }
+            if (!declared[i]) { w.declareAtom(atom); declared[i] = true; }
+            if (w.group[i] < 0) w.group[i] = 1000000 + (int)w.clauses.size();   // atoms of one lemma are related to each other
+            w.informNewSplit(atom);
+            cl.push_back({i, pol});
+        }
+        say("clause from solver: " + L.termToSMT2String(c));
+        w.clauses.push_back(cl);
+    }
+    // the SAT engine never makes all literals of a clause it holds false
+    bool wouldFalsify(int i, bool pol) const {
+        for (auto const & cl : w.clauses) {
+            bool allFalse = true, mentions = false;
+            for (auto const & l : cl) {
+                int v = l.first == i ? (pol ? 1 : -1) : value[l.first];
+                if (l.first == i) mentions = true;
+                if (v == 0 || (v > 0) == l.second) { allFalse = false; break; }
+            }
+            if (mentions && allFalse) return true;
+        }
+        return false;
     }
     void noteVerdict() {
         verdicts++;
@@ -238,7 +344,7 @@ struct Run {
         noteVerdict();
         stats.classes[std::string("verdict:") + how]++;
         vec<PtAsgn> expl;
-        w.solver->getConflict(expl);
+        w.getConflict(expl);
         std::vector<std::string> ex;
         for (PtAsgn pa : expl) {
             int i = findAtom(pa.tr);
@@ -269,12 +375,11 @@ struct Run {
     }
     bool assertOne(int i, bool pol, bool & conflict) {
         declare(i);
-        w.solver->pushBacktrackPoint();
         stack.push_back({i, pol});
         value[i] = pol ? 1 : -1;
         unchecked = true;
         say("assert " + lit({i, pol}));
-        bool ok = w.solver->assertLit(PtAsgn(w.atoms[i], pol ? l_True : l_False));
+        bool ok = w.assertLit(PtAsgn(w.atoms[i], pol ? l_True : l_False));
         conflict = !ok;
         if (!ok) { say("  -> conflict"); return judgeConflict("assert-conflict"); }
         return true;
@@ -286,19 +391,19 @@ struct Run {
         stack.resize(target);
         levelStart.resize(levelStart.size() - k);
         if (levelStart.empty()) levelStart.push_back(0);
-        if (n) w.solver->popBacktrackPoints(n);
+        if (n) w.pop(n);
         backtracks++;
         unchecked = false;   // what remains belongs to levels that were left only after a successful check
         say("backtrack " + std::to_string(k) + " level(s), " + std::to_string(n) + " literal(s)");
     }
     bool check(bool complete, bool & conflict) {
-        TRes r = w.solver->check(complete);
+        TRes r = w.check(complete);
         say(std::string("check ") + (complete ? "complete" : "partial") + " -> " + (r == TRes::SAT ? "SAT" : r == TRes::UNSAT ? "UNSAT" : "UNKNOWN"));
         conflict = r == TRes::UNSAT;
         if (conflict) return judgeConflict("check-unsat");
         if (r != TRes::SAT) { stats.classes["check-unknown"]++; return true; }
         unchecked = false;
-        if (complete && !w.solver->hasNewSplits()) {
+        if (complete && w.judgeSat && !w.hasNewSplits()) {
             noteVerdict();
             stats.classes["verdict:complete-sat"]++;
             std::string z = z3query(current());
@@ -308,10 +413,19 @@ struct Run {
             }
             if (z != "sat") stats.classes["z3-unknown"]++;
         }
+        // split / lemma clauses are fetched after every successful check (CoreSMTSolver::handleSat), from the first solver that has some
+        for (auto * sv : w.sched) {
+            if (!sv->hasNewSplits()) continue;
+            vec<PTRef> cls;
+            sv->getNewSplits(cls);
+            stats.classes["clauses-from-solver"] += cls.size();
+            for (PTRef c : cls) addClause(c);
+            break;
+        }
         // theory propagation: the SAT engine drains the deductions after a successful check and enqueues them
         std::vector<std::pair<int, bool>> deds;
         while (true) {
-            PtAsgn_reason d = w.solver->getDeduction();
+            PtAsgn_reason d = w.getDeduction();
             if (d.tr == PTRef_Undef) break;
             int i = findAtom(d.tr);
             if (i < 0) continue;
@@ -339,7 +453,7 @@ struct Run {
 static bool runCase(std::vector<uint32_t> const & words, std::string const & mode, bool count, std::string * trace = nullptr) {
     Src s{words};
     World w;
-    if (mode == "euf") buildEuf(w, s); else buildArith(w, s, mode);
+    if (mode == "euf") buildEuf(w, s); else if (mode == "ax") buildAx(w, s); else buildArith(w, s, mode);
     if (count) stats.evaluations++;
     if (w.atoms.size() < 2) return true;
     Run r{w};
@@ -377,7 +491,8 @@ static bool runCase(std::vector<uint32_t> const & words, std::string const & mod
                             if (w.group[f] >= 0 && w.group[f] == w.group[l.first]) { rel.push_back(f); break; }
                         if (!rel.empty()) i = rel[s.below(rel.size())];
                     }
-                    bool pol = w.positiveOnly[i] ? true : w.preferTrue ? s.below(5) != 0 : s.below(2) == 0;
+                    bool pol = w.positiveOnly[i] ? true : w.preferTrue ? s.below(5) != 0 : w.group[i] >= 1000000 ? s.below(3) == 0 : s.below(2) == 0;
+                    if (r.wouldFalsify(i, pol)) { if (w.positiveOnly[i] || r.wouldFalsify(i, !pol)) continue; pol = !pol; }
                     // a new decision level starts with probability 1/2 (never an empty level). The SAT engine decides only after
                     // assertLits + check succeeded for everything on the trail, so unchecked literals are checked first.
                     bool newLevel = r.stack.size() > r.levelStart.back() && (episode || s.below(2) == 0);
@@ -414,6 +529,7 @@ static bool runCase(std::vector<uint32_t> const & words, std::string const & mod
             if (free.empty()) break;
             int i = free[s.below(free.size())];
             bool pol = w.positiveOnly[i] ? true : w.preferTrue ? s.below(5) != 0 : s.below(2) == 0;
+            if (r.wouldFalsify(i, pol)) { if (w.positiveOnly[i] || r.wouldFalsify(i, !pol)) continue; pol = !pol; }
             bool conflict = false;
             ok = r.assertOne(i, pol, conflict);
             if (!ok || conflict) break;
